@@ -120,7 +120,7 @@ ForestRuleKey = Tup(Int, Seq(Int), Seq(Int), Bucket, names=["parent", "children"
 named_tuple("ForestRuleKey", ForestRuleKey)
 tuple_property(ForestRuleKey, "key", "comb_spec_searcher/typing.py")
 REG.classes["TableMethod"].fields.update({"_rules": List(ForestRuleKey), "_function": Obj("Function")})
-FAL = {"ForestRuleKey": ForestRuleKey}
+FAL = {"ForestRuleKey": ForestRuleKey, "RuleKey": Tup(Int, Seq(Int))}      # names of comb_spec_searcher/typing.py
 
 contract(F, "Function.preimage", props=["C03", "C11"], aliases=FAL,
          params={"self": Obj("Function"), "value": Opt(Int)}, returns=Seq(Int),
@@ -145,7 +145,16 @@ contract(F, "TableMethod.pumping_subuniverse", props=["C11"], aliases=FAL,
                  "it.parent < len(self._function._value) and is_none(self._function._value[it.parent])",
                  "forall(lambda j: implies(0 <= j and j < len(it.children), it.children[j] < len(self._function._value) and "
                  "is_none(self._function._value[it.children[j]])))"],
-         modifies=[], notes="only stored rule keys all of whose classes are pumping (restriction to the pumping sub-universe)")
+         # ... and ALL of them: a stored key whose classes are all pumping is handed out (however many equal-looking keys with
+         # another bucket or other shifts were stored before it)
+         complete={"var": "w", "type": ForestRuleKey,
+                   "when": ["0 <= wi and wi < len(self._rules) and self._rules[wi] == w",
+                            "w.parent < len(self._function._value) and is_none(self._function._value[w.parent])",
+                            "forall(lambda j: implies(0 <= j and j < len(w.children), w.children[j] < len(self._function._value) and "
+                            "is_none(self._function._value[w.children[j]])))"],
+                   "invariants": {0: ["found or wi >= _i0"]}},
+         ghost={"wi": Int},
+         modifies=[], notes="exactly the stored rule keys all of whose classes are pumping (restriction to the pumping sub-universe)")
 
 # ---------------------------------------------------------------- shift table (C03)
 # The shift of child i in a rule = number of terms the child can still give the parent:
@@ -209,8 +218,20 @@ _PARENTS_OK = ("forall(lambda r: implies(0 <= r and r < len(self._rules), self._
 # no row of rule indices is the histogram's list (both are lists of int)
 _HIST_APART = ("forall(lambda i: implies(0 <= i and i < len(self._rules_pumping_class._list), "
                "not same(self._rules_pumping_class._list[i], self._function._preimage_count._list)))")
-_IDX_WF = ["wf(self._rules_using_class)", "wf(self._rules_pumping_class)", _HIST_APART]
-_TBL_INV = ["self._gap_size >= 1", _NONNEG, _ROWS_APART, _PARENTS_OK] + _IDX_WF
+_PL = "self._rules_pumping_class._list"
+# every recorded "rule pumping class c" is a valid row of the shift table, recorded once; shift rows are pairwise distinct lists
+_P_ALL_OK = ("forall(lambda c, k: implies(0 <= c and c < len(" + _PL + ") and 0 <= k and k < len(" + _PL + "[c]), "
+             "0 <= " + _PL + "[c][k] and " + _PL + "[c][k] < len(self._shifts)))")
+_P_ALL_DIST = ("forall(lambda c, k, l: implies(0 <= c and c < len(" + _PL + ") and 0 <= k and k < l and l < len(" + _PL + "[c]), "
+               + _PL + "[c][k] != " + _PL + "[c][l]))")
+_SROWS_DISTINCT = "forall(lambda r, q: implies(0 <= r and r < q and q < len(self._shifts), not same(self._shifts[r], self._shifts[q])))"
+# one row of shifts per stored rule, each an existing list (well-typed heap, stated because the rows are reached through a quantifier)
+_SROWS_ALLOC = "len(self._shifts) == len(self._rules) and forall(lambda r: implies(0 <= r and r < len(self._shifts), allocated(self._shifts[r])))"
+_IDX_WF = ["wf(self._rules_using_class)", "wf(self._rules_pumping_class)", _HIST_APART, _P_ALL_OK, _P_ALL_DIST, _SROWS_DISTINCT, _SROWS_ALLOC]
+# the gap is at least as wide as the largest declared shift (of either sign) of any stored rule -- BEFORE anything is propagated
+_GAPCOVER = ("forall(lambda r, i: implies(0 <= r and r < len(self._rules) and 0 <= i and i < len(self._rules[r].shifts), "
+             "0 - self._gap_size <= self._rules[r].shifts[i] and self._rules[r].shifts[i] <= self._gap_size))")
+_TBL_INV = ["self._gap_size >= 1", _NONNEG, _ROWS_APART, _PARENTS_OK, _GAPCOVER] + _IDX_WF
 
 
 def tbl_inv(name):
@@ -268,7 +289,7 @@ contract(F, "TableMethod.add_rule_key", props=["C03", "C11"], lenient=True, alia
          # recorded among the rules using that class (so that a later increase of the child reaches this rule's shift),
          # the rule is recorded among those pumping its parent, and it is queued
          ghost={"wit": Map(Int, Int)},        # position of the entry recorded for child j in the row of its class
-         ghost_stmts={"after:expr#5": [
+         ghost_stmts={"after:~self._rules_using_class[child].append(": [
                           # the append keeps the earlier entries: same rows, never shorter, same content at the recorded places
                           "assert forall_t(lambda j: implies(0 <= j and j < len(rule_key.children), rule_key.children[j] >= 0))",
                           "assert " + _EARLIER.format(body="rule_key.children[j] < at('iter0', len(" + _UL + "))"),
@@ -277,7 +298,7 @@ contract(F, "TableMethod.add_rule_key", props=["C03", "C11"], lenient=True, alia
                           "assert " + _EARLIER.format(body=_UL + "[rule_key.children[j]][wit[j]] == at('iter0', " + _UL + "[rule_key.children[j]][wit[j]])"),
                           "assert " + _REGISTERED.format(hi="child_idx"),
                                        "wit = mset(wit, child_idx, len(self._rules_using_class._list[child]) - 1)"],
-                      "after:expr#6": ["assert " + _REGISTERED.format(hi="len(rule_key.children)"),
+                      "after:~self._processing_queue.append(rule_idx)": ["assert " + _REGISTERED.format(hi="len(rule_key.children)"),
                                        "assert self._processing_queue[len(self._processing_queue) - 1] == rule_idx",
                                        "assert rule_idx == len(self._rules) - 1", "assert " + _PUMP_LAST]},
          # (only what the loop can change is restated: function lists and the rows of rules using a class; the rest of the
@@ -444,6 +465,19 @@ contract(F, "ForestRuleExtractor._minimize_key", props=["C11"], lenient=True, al
 # ---------------------------------------------------------------- C03: _increase_value keeps the gap up to date
 # whenever a value was increased, the recorded gap starts where the histogram says it starts (the window is re-derived
 # every time its start moved, in either direction)
+_DEC = "ite(is_none({x}), None, val({x}) - 1)"
+_NCI = "ite(class_idx < 0, class_idx + len(shifts), class_idx)"      # a negative position is read from the end, as Python does
+_PROW = "self._rules_pumping_class._list[comb_class]"
+# the rules recorded as pumping the class are valid rule indices, each recorded once
+_PROW_OK = ("forall(lambda k: implies(0 <= k and k < len(" + _PROW + "), 0 <= " + _PROW + "[k] and " + _PROW + "[k] < len(self._shifts))) and "
+            "forall(lambda k, l: implies(0 <= k and k < l and l < len(" + _PROW + "), " + _PROW + "[k] != " + _PROW + "[l]))")
+_UROW = "self._rules_using_class._list[comb_class]"
+_UENT = "self._shifts[" + _UROW + "[{k}][0]][" + _UROW + "[{k}][1]]"
+# the (rule, child position) pairs recorded as using the class are valid positions of the shift table, each recorded once
+_UROW_RANGE = ("forall(lambda k: implies(0 <= k and k < len(" + _UROW + "), 0 <= " + _UROW + "[k][0] and " + _UROW + "[k][0] < len(self._shifts) and "
+               "0 <= " + _UROW + "[k][1] and " + _UROW + "[k][1] < len(self._shifts[" + _UROW + "[k][0]])))")
+_UROW_DIST = "forall(lambda k, l: implies(0 <= k and k < l and l < len(" + _UROW + "), " + _UROW + "[k] != " + _UROW + "[l]))"
+_UROW_OK = _UROW_RANGE + " and " + _UROW_DIST
 _TFV_AT = lambda lbl: ("forall(lambda k: implies(0 <= k, " + _TFV.format(k="k") + " == at('" + lbl + "', " + _TFV.format(k="k") + ")))")
 _OTHERS_SAME = ("forall(lambda k: implies(0 <= k and k != comb_class, " + _TFV.format(k="k") + " == old(" + _TFV.format(k="k") + ")))")
 contract(F, "TableMethod._increase_value", props=["C03"], lenient=True, aliases=FAL,
@@ -465,9 +499,24 @@ contract(F, "TableMethod._increase_value", props=["C03"], lenient=True, aliases=
                   "implies(not is_none(old(" + _TFV.format(k="comb_class") + ")) and "
                   "val(old(" + _TFV.format(k="comb_class") + ")) <= old(self._current_gap[1]), "
                   "val(" + _TFV.format(k="comb_class") + ") == val(old(" + _TFV.format(k="comb_class") + ")) + 1)"],
-         loops={0: dict(invariant=[_TFV_AT("loop0")] + _IDX_WF, modifies=["all:List(Opt(Int))", "*self._processing_queue"]),
-                1: dict(invariant=[_TFV_AT("loop1")] + _IDX_WF, modifies=["all:List(Opt(Int))"]),
+         loops={0: dict(invariant=[_TFV_AT("loop0")] + _IDX_WF + [
+                    "comb_class < len(self._rules_pumping_class._list)",
+                    "forall(lambda r: implies(0 <= r and r < len(self._shifts), len(self._shifts[r]) == at('loop0', len(self._shifts[r]))))",
+                    # rows of the rules met so far: every entry one lower; every other row as it was
+                    "forall(lambda k: implies(0 <= k and k < _i0, forall(lambda i: implies(0 <= i and i < len(self._shifts[" + _PROW + "[k]]), "
+                    "self._shifts[" + _PROW + "[k]][i] == " + _DEC.format(x="at('loop0', self._shifts[" + _PROW + "[k]][i])") + "))))",
+                    "forall(lambda r: implies(0 <= r and r < len(self._shifts) and forall(lambda k: implies(0 <= k and k < _i0, " + _PROW + "[k] != r)), "
+                    "forall(lambda i: implies(0 <= i and i < len(self._shifts[r]), self._shifts[r][i] == at('loop0', self._shifts[r][i])))))"],
+                        modifies=["all:List(Opt(Int))", "*self._processing_queue"]),
+                # the row of a rule pumping the class: every entry drops by one (an infinite entry stays infinite)
+                1: dict(invariant=["len(shifts) == at('loop1', len(shifts))",
+                                   "forall(lambda i: implies(0 <= i and i < _i1, shifts[i] == " + _DEC.format(x="at('loop1', shifts[i])") + "))",
+                                   "forall(lambda i: implies(_i1 <= i and i < len(shifts), shifts[i] == at('loop1', shifts[i])))"],
+                        modifies=["*shifts"]),
                 2: dict(invariant=[_TFV_AT("loop2")] + _IDX_WF, modifies=["all:List(Opt(Int))", "*self._processing_queue"])},
+         ghost_stmts={"after:loop#1": ["assert forall(lambda i: implies(0 <= i and i < len(shifts), shifts[i] == " + _DEC.format(x="at('iter0', cur(shifts)[i])") + "))"],
+                      # a rule using the class: the entry of that child position goes up by one (it was finite)
+                      "after:~shifts[class_idx] = current_shift": ["assert shifts[" + _NCI + "] == val(at('iter2', cur(shifts)[" + _NCI.replace("class_idx", "cur(class_idx)").replace("len(shifts)", "len(cur(shifts))") + "])) + 1"]},
          modifies=_TM_STATE + _TM_FUN + _TM_IDX,
          notes="value bookkeeping: +1 below or at the gap, frozen (rule held back) above it; the gap start is re-derived. The "
                "shift-table updates themselves are not stated (the two index structures are untracked)")
